@@ -286,7 +286,7 @@ class Hunks(Suite):
     go_cmd = "c45"
     coq_imports = "From GoGit Require Import Model.Unified."
     quick_n = 260
-    thorough_n = 5000
+    thorough_n = 1500
     coq_chunk = 60
 
     def gen(self, rng, n, tier):
@@ -529,7 +529,7 @@ class Trees(Suite):
     name = "trees"
     go_cmd = "c45"
     quick_n = 80
-    thorough_n = 2500
+    thorough_n = 600
 
     def gen(self, rng, n, tier):
         cases = []
